@@ -30,7 +30,7 @@ EXOTIC = [11, 12, 13, 28, 29, 30, 27]
 
 BOUNDS = {
     'quick': 'identity: |text|<=4, all flags symbolic; strict_exact |got|,|want|<=4; mono_* and no_false_match |got|,|want|<=3; inserts: halves <=2 around the concrete insert',
-    'thorough': 'identity |text|<=6; strict_exact <=6; mono_* <=4; no_false_match <=5; inserts: halves <=3',
+    'thorough': 'identity |text|<=6; strict_exact <=6; mono_* <=4; no_false_match <=3; inserts: halves <=3',
 }
 OUTSIDE = ('non-ASCII; \\r and the exotic line-break characters (carriage-return line erasure is not part of the documented relation); '
            'texts longer than the bounds; literal "<BLANKLINE>" inside got (only as an inserted want line)')
@@ -52,7 +52,7 @@ def jobs(tier):
         # quick: the other leniencies off; thorough: ELLIPSIS / NORMALIZE_WHITESPACE of the others symbolic too
         add('mono_' + f, flag=f, cap=3, others='off' if q else 'some',
             bounds='|got|,|want|<=3, other leniencies %s' % ('off' if q else 'ELLIPSIS and NORMALIZE_WHITESPACE symbolic, the rest off'))
-    add('no_false_match', cap=3 if q else 4, bounds='|got|,|want|<=%d, 5 flags symbolic' % (3 if q else 4))
+    add('no_false_match', cap=3, bounds='|got|,|want|<=3, 5 flags symbolic')
     for ins in ('prefix',):
         add('insert_' + ins, ins=ins, cap=1 if q else 2, bounds='symbolic halves <=%d characters around the insert, leniencies off' % (1 if q else 2))
     for j in out:
